@@ -21,23 +21,23 @@ chk("C20", "fault_enumeration",
     "DESIGN.md §4 C20", "sim")
 
 chk("C01", "fault_enumeration",
-    "Every single-bit flip of header, TD body, attestation key, QE report and QE auth data of seeded honest quotes is delivered and must be rejected; every subset of broken links {body signature, hash binding, QE signature} is built with the other links valid using the simulator's own QE/PCK keys; plus key/signature edge values, splices between two honest platforms, resizes, truncations and random mutations, at three option levels and both entry points. Enumeration is complete per world over the stated regions; worlds are seeded.",
+    "Every single-bit flip of header, TD body, attestation key, QE report and QE auth data of seeded honest quotes must be rejected; every subset of broken links {body signature, hash binding, QE signature} is built with the other links valid using the simulator's own QE/PCK keys (incl. non-zero padding behind the binding digest); key/signature edge values, splices between two honest platforms, resizes, truncations, random mutations, high bits in the message form's 16-bit fields, and the same forgeries while the getter panics or fails at its k-th fetch; three option levels, both entry points. Enumeration is complete per world over the stated regions; worlds are seeded.",
     TB + " A random bit flip or foreign-key signature is assumed not to produce a valid ECDSA signature.",
     "deterministic simulation: simulated QE/PCK/CA keys build self-consistent forgeries; wire bit-flip fault enumeration", "DESIGN.md §4 C01", "sim")
 chk("C02", "exploration",
-    "Seeded search over (quote built under PKI A or look-alike PKI B) x (7 trusted pools), single-element substitutions, in-name-of forgeries, 9 role-confusion chains signed by the trusted root, and 28 root-of-trust configurations on a simulated disk; verdicts compared with 'chains through the quote's intermediate to a listed root and the leaf has the PCK role'.",
+    "Seeded search over (quote under PKI A, look-alike PKI B, a look-alike of the embedded Intel root) x (7 trusted pools, with Options.Now set and unset), single-element substitutions, in-name-of forgeries, non-CA intermediate, foreign chains not yet valid, 9 role-confusion chains signed by the trusted root, and ~30 root-of-trust configurations on a simulated disk incl. a bundle rotated in place; verdicts compared with 'chains through the quote's intermediate CA to a listed root and the leaf has the PCK role'.",
     TB, "deterministic simulation with a second look-alike CA hierarchy, role-confusion certificates and faulty bundle files", "DESIGN.md §4 C02", "sim")
 chk("C03", "exploration",
-    "A Byzantine PCS endpoint on the Getter seam: ~95 structured faults plus body/header bit flips, in two flavours so that substitution of signed values by unsigned content is observable (genuine signed member says reject, injected unsigned member says accept).",
+    "A Byzantine PCS endpoint on the Getter seam: ~120 structured faults (incl. genuinely signed documents of the wrong kind with unsigned decoys) plus body/header bit flips, in two flavours so that substitution of signed values by unsigned content is observable; plus the default-anchor scenario (no pool, Intel's sample quote, collateral signed under a look-alike of the embedded root).",
     TB, "deterministic simulation of a Byzantine collateral endpoint with own JSON emitter; fault injection on the Getter seam", "DESIGN.md §4 C03", "sim")
 chk("C04", "exploration",
     "Timelines (Intel publishes signed TCB Info, platform is patched, PCS serves a stale version) with boundary-biased level lists; every verdict and the level-reporting API are compared with an executable transcription of the property sentence. Hosted in the simulation because three signers must cooperate; the deciding element is the reference model.",
     TB + " The reference model world.EvalTcb is a transcription of the property statement.", "deterministic simulation of CA + TCB signer + platform timelines against a reference model", "DESIGN.md §4 C04", "sim")
 chk("C05", "exploration",
-    "One seeded world under ~55 CRL situations (revoked serial sets incl. near-misses and up to 1000 entries, CRL signers, endpoint outcomes, several distribution points) with revocation on; two distinct TCB-signing certificates make each signer's revocation attributable.",
+    "One seeded world under ~60 CRL situations (revoked serial sets incl. near-misses, other-issuer coincidences that must be accepted, up to 1000 entries, revocation dates after the verifier's clock; CRL signers incl. look-alike issuer certificates in the unauthenticated header; endpoint outcomes; several distribution points; a long-lived options value switching collateral off) with revocation on; two distinct TCB-signing certificates make each signer's revocation attributable.",
     TB, "deterministic simulation of CRL issuers and CRL endpoints with fault injection", "DESIGN.md §4 C05", "sim")
 chk("C06", "fault_enumeration",
-    "Thirteen artifacts with thirteen distinct expiry instants; the complete grid {1 s before, at, 1 s after} x each of the five time-set fields x option levels, notBefore grid for path roles, skewed time sets and a monotone timeline, compared both ways with 'accept iff each artifact is in date at its own field'.",
+    "Thirteen artifacts with thirteen distinct expiry instants (in a third of the runs both documents share one issuer chain); the complete grid {1 s before, at, 1 s after} x each of the five time-set fields x option levels, notBefore grid for path roles, skewed time sets, instants carried in tape-chosen time zones, and a monotone timeline through fresh and through one long-lived options value, compared both ways with 'accept iff each artifact is in date at its own field'.",
     TB, "deterministic simulation with a simulated clock driving Options.Now; boundary grid enumeration per world", "DESIGN.md §4 C06", "sim")
 chk("C07", "exploration",
     "Timelines of signed QE identities (masks of any content, wrong lengths, level lists) and QE reports re-signed by the PCK key, compared with a transcription of the property sentence. Hosted, as C04.",
